@@ -32,7 +32,26 @@ def oracle(ctx, case, real, rt):
     if bad:
         ctx.violation("eliot API call %s %s" % bad[0], case)
         return
-    for idx in rt.typed_calls:
+    for idx, cur in rt.typed_calls:
+        # a typed message that failed to serialize: its notices belong to the context the logging call was made in
+        # (`x.log(...)` / `Message.write(action=x)` from elsewhere: the caller's context, not x's)
+        if idx < len(rt.writes) and rt.writes[idx][1] and key_of(rt.writes[idx][0]) not in {key_of(m) for d, m in real["offered"]}:
+            j = idx + 1
+            while j < len(rt.writes) and rt.writes[j][0].get("message_type") in ("eliot:traceback", "eliot:destination_failure", "eliot:serialization_failure"):
+                w = rt.writes[j][0]
+                j += 1
+                if w.get("message_type") == "eliot:destination_failure":
+                    continue
+                wl = w.get("task_level")
+                wu = w.get("task_uuid", {}).get("uuid") if isinstance(w.get("task_uuid"), dict) else None
+                good = (wl == [1]) if cur is None else (isinstance(wl, list) and wu == cur[0] and wl[:-1] == cur[1])
+                if not good:
+                    ctx.violation("the %s notice for a typed message that failed to serialize was logged at %s/%s, not in the context "
+                                  "the logging call was made in (%s)" % (w.get("message_type"), wu, wl, cur), case)
+                    return
+                if w.get("message_type") == "eliot:serialization_failure":
+                    break
+    for idx, cur in rt.typed_calls:
         if idx < len(rt.writes) and not rt.writes[idx][1]:
             ctx.violation("a message logged through a MessageType (spelling %s) reached Logger.write without the type's serializer: "
                           "its declared fields are delivered as logged" % ([a[0] for a in rt.api if "MessageType" in a[0] or "typed" in a[0]][-1:] or ["?"])[0], case)
@@ -162,14 +181,23 @@ def direct_writes(ctx, i):
             held.append((d, snap))
             which = rng.random()
             try:
-                if which < 0.4:
+                if which < 0.3:
                     logger.write(d)
-                elif which < 0.7:
+                elif which < 0.5:
                     logger.write(d, mt._serializer)
-                elif which < 0.85:
+                elif which < 0.6:
                     mem.write(d)
-                else:
+                elif which < 0.7:
                     mem.write(d, mt._serializer)
+                else:
+                    # the caller's dictionary handed to the (older) Message class itself
+                    import warnings
+                    with warnings.catch_warnings():
+                        warnings.simplefilter("ignore")
+                        m = eliot.Message(d, mt._serializer) if which < 0.85 else eliot.Message(d)
+                        if rng.random() < 0.3:
+                            m = m.bind(extra=step)
+                        m.write(rng.choice([None, logger, mem]))
             except BaseException as e:  # noqa
                 problems.append("write raised %s" % type(e).__name__)
             for dd, ss in held:
